@@ -272,9 +272,11 @@ def r4(ctx):
              '`encrypted` after a successful decrypt and returns Err(DecryptError) only with is_valid_nts == false')
     d = ctx.P.body('ntp_proto::packet::extension_fields::ExtensionFieldData::deserialize')
     inv = some(d.aggregates(r'InvalidNtsExtensionField$'), 'InvalidNtsExtensionField construction')
+    fl_idx = flag_locals(d)
+    fl = one(sorted(set(fl_idx.values())), 'the validity flag of ExtensionFieldData::deserialize')
     for s in inv:
-        ctx.guard(d, s, 'invalid-nts', lambda f: f.kind == 'bool' and not f.pol and tstr(f.term).startswith('is_valid_nts'), key='deserialize|invalid|flag-false')
-    ws = [s for s in d.assigns(lambda pl: pl['l'] != 0 and not pl['p']) if d.local_name((s.data.get('place') or s.data.get('dest'))['l']) == 'is_valid_nts']
+        ctx.guard(d, s, 'invalid-nts', lambda f: f.kind == 'bool' and not f.pol and re.match(r'^%s\b' % re.escape(fl), tstr(f.term)) is not None, key='deserialize|invalid|flag-false')
+    ws = [s for s in d.assigns(lambda pl: pl['l'] != 0 and not pl['p']) if (s.data.get('place') or s.data.get('dest'))['l'] in fl_idx]
     falses = [s for s in ws if s.kind == 'assign' and written_value(d, s) == '0']
     ctx.check('deserialize|invalid-flag-sites', len(falses) == 2, 'is_valid_nts = false sites: %d' % len(falses), sample=len(falses))
     ext = [s for s in d.calls(r'Extend::extend$|Vec::extend') if re.search(r'\.encrypted$', S(d.call_args(s)[0]))]
